@@ -228,7 +228,7 @@ PROPS["C10"] = dict(
                "reproduce. Signals are not sent at the trigger line itself (the server installs its handlers just after printing it).",
     rule="non-trivial = the stop fired and the transfer ended stopped (not success); distinct by SHA-1 of the case JSON (scenario, event, kind, initiator)",
     tests=[dict(name="TestVF_C10", rapid=False, env=dict(VERIF_CASE_LIMIT=300),
-                quick=dict(shards=32, timeout=1200, env=dict(VERIF_C10_STRIDE=12)),
+                quick=dict(shards=32, timeout=1200, env=dict(VERIF_C10_STRIDE=5)),
                 thorough=dict(shards=32, timeout=14000, env=dict(VERIF_C10_STRIDE=1)))],
 )
 
@@ -244,7 +244,7 @@ PROPS["C11"] = dict(
                "runs the same enumeration at stride 1 and includes the lost-CFG points; schedule perturbation (yield-instrumented build) is not part of this check yet.",
     rule="non-trivial = the fault fired and the transfer did not simply succeed; distinct by SHA-1 of the case JSON (scenario, event, fault)",
     tests=[dict(name="TestVF_C11", rapid=False, env=dict(VERIF_CASE_LIMIT=300),
-                quick=dict(shards=32, timeout=1800, env=dict(VERIF_C11_STRIDE=40)),
+                quick=dict(shards=32, timeout=1800, env=dict(VERIF_C11_STRIDE=14)),
                 thorough=dict(shards=32, timeout=20000, env=dict(VERIF_C11_STRIDE=1)))],
 )
 
@@ -258,7 +258,7 @@ PROPS["C18"] = dict(
     level_note="Only the client can be paused (the prompt is a client feature). Nothing is asserted about the cadence of keep-alives.",
     rule="non-trivial = the pause point was reached and at least one pause/resume cycle was performed; distinct by SHA-1 of the case JSON",
     tests=[dict(name="TestVF_C18", rapid=False, env=dict(VERIF_CASE_LIMIT=300),
-                quick=dict(shards=32, timeout=1800, env=dict(VERIF_C18_STRIDE=48)),
+                quick=dict(shards=32, timeout=1800, env=dict(VERIF_C18_STRIDE=24)),
                 thorough=dict(shards=32, timeout=20000, env=dict(VERIF_C18_STRIDE=2, VERIF_C18_LONG=1)))],
 )
 
